@@ -73,6 +73,9 @@ func (s *tokenScanner) getNextExpr() (Expr, error) {
 
 	case typeMod:
 		modifier := uniOps[OpCode(token.val)]
+		if s.done() {
+			return nil, ErrUnexpectedEnd
+		}
 		next, err := s.getNextExpr()
 		if err != nil {
 			return nil, err
